@@ -128,6 +128,13 @@ ANTICIPATED = [
     # submission is character for character the author's own answer
     ('@braces:(1,2}', 'InvalidInput'), ('@braces:{1,2)', 'InvalidInput'), ('@braces:<1,2}', 'InvalidInput'),
     ('@bracesexpect:(1,2}', 'ConfigError'), ('@bracesexpect:{1,2>', 'ConfigError'),
+    # integer-valued built-ins must not switch the evaluator to exact integer arithmetic:
+    # 2^2^2^2^2 overflows whichever way the twos are written
+    ('(kronecker(1,1)+kronecker(1,1))^(kronecker(1,1)+kronecker(1,1))^(kronecker(1,1)+kronecker(1,1))^'
+     '(kronecker(1,1)+kronecker(1,1))^(kronecker(1,1)+kronecker(1,1))', 'CalcOverflowError'),
+    ('2^2^2^2^2', 'CalcOverflowError'), ('(1+kronecker(2,2))^2000', 'CalcOverflowError'),
+    # a sibling box that is blank, or only whitespace
+    ('@siblingblank:', 'MissingInput'), ('@siblingblank: ', 'MissingInput'), ('@siblingblank:\t', 'MissingInput'),
     ('@instructor:x*c', 'UndefinedVariable'), ('@instructor:c', 'UndefinedVariable'),
     ('@instructor:x * c', 'UndefinedVariable'), ('@sibling:sibling_2+1', 'UndefinedVariable'),
     ('@sibling:sibling_2 + 1', 'UndefinedVariable'),
@@ -1072,6 +1079,10 @@ class Run(object):
             text = text.split(':', 1)[1]
             g = m.FormulaGrader(answers='x*c', variables=['x', 'c'], instructor_vars=['c'])
             inp = text
+        elif text.startswith('@siblingblank:'):
+            text = text.split(':', 1)[1]
+            g = m.ListGrader(answers=['2*sibling_2', 'x'], subgraders=m.FormulaGrader(variables=['x']), ordered=True)
+            inp = ['2*x', text]
         elif text.startswith('@sibling:'):
             text = text.split(':', 1)[1]
             g = m.ListGrader(answers=['sibling_2+1', 'x'], subgraders=m.FormulaGrader(variables=['x']), ordered=True)
